@@ -731,3 +731,49 @@ Proof.
     rewrite g2tx_minus_arm in C' by assumption. rewrite B in C'. inversion C'; subst i'.
     exists a. split; [f_equal; f_equal; lia|]. split; [lia|]. split; [lia | exact E].
 Qed.
+
+(* ------------------------------------------------------------------ CDS (cDNA) sequence *)
+(* the CDS sequence is the transcript-sequence construction applied to the CDS segments, so every
+   statement about tx_seq holds of it with the CDS segments in place of the exons *)
+Lemma cdna_is_tx_seq : forall tbl st ex cs chrom sq r, cdna_sequence tbl st ex cs chrom = Ok (sq, r) ->
+  tx_seq tbl st (cds_segments cs) chrom = Ok sq /\ cds_start_index st ex cs = Ok r.
+Proof.
+  intros tbl st ex cs chrom sq r H. unfold cdna_sequence in H.
+  destruct cs as [|c cs']; [discriminate|].
+  destruct (cds_start_index st ex (c :: cs')) as [x|e] eqn:E; [|discriminate].
+  inversion H; subst. split; reflexivity.
+Qed.
+
+Lemma cdna_seq_nth_l : forall tbl st ex cs chrom f i, wf (cds_segments cs) = true -> strand_ok st ->
+  last_end (cds_segments cs) <= zlen chrom -> 0 <= i < tx_len (cds_segments cs) ->
+  cds_start_index st ex cs = Ok f ->
+  exists sq g c, cdna_sequence tbl st ex cs chrom = Ok (sq, f) /\ zlen sq = tx_len (cds_segments cs) /\
+                 tx2g st (cds_segments cs) i = Ok g /\ exonic (cds_segments cs) g = true /\
+                 nthZ chrom g = Some c /\ nthZ sq i = Some (if st =? -1 then comp tbl c else c).
+Proof.
+  intros tbl st ex cs chrom f i W S HB R F.
+  destruct (tx_seq_nth_l tbl st _ chrom i W S HB R) as (sq & g & c & A & B & C & D & E & G & _).
+  exists sq, g, c. repeat split; auto.
+  unfold cdna_sequence. destruct cs as [|c0 cs']; [discriminate W|]. rewrite F.
+  unfold tx_seq in A. cbn [cds_segments map] in A. inversion A. reflexivity.
+Qed.
+
+(* ------------------------------------------------------------------ the proposed book-end repair *)
+(* inside the range test of get_transcript_index (g < end of the last exon) the repaired plus arm and
+   the arm as written agree on every well-separated exon list *)
+Lemma bookend_fix_equiv_l : forall ex lo g acc, wf_from lo ex = true -> ex <> [] -> g < last_end ex ->
+  g2tx_plus_fixed ex g acc = g2tx_plus ex g acc.
+Proof.
+  induction ex as [|[s e] t IH]; intros lo g acc W N L; [congruence|].
+  apply wf_split in W as (A & B & C). cbn [g2tx_plus_fixed g2tx_plus].
+  destruct (e <? g) eqn:E1.
+  - destruct (e <=? g) eqn:E2; [|lia].
+    destruct t as [|y t']; [unfold last_end in L; cbn in L; lia|].
+    rewrite last_end_cons in L by discriminate. apply (IH e); [exact C | discriminate | exact L].
+  - destruct (e =? g) eqn:E2.
+    + destruct (e <=? g) eqn:E3; [|lia].
+      destruct t as [|[s' e'] t']; [unfold last_end in L; cbn in L; lia|].
+      apply wf_split in C as (A' & B' & C'). cbn [g2tx_plus_fixed].
+      destruct (e' <=? g) eqn:E4; [lia|]. destruct (s' <=? g) eqn:E5; [lia | reflexivity].
+    + destruct (e <=? g) eqn:E3; [lia | reflexivity].
+Qed.
